@@ -62,6 +62,11 @@ def cases(tier, seed):
             out.append({'k': 'faults', 'prog': name, 'loc': ['line', ln]})
         for fn in fns:
             out.append({'k': 'faults', 'prog': name, 'loc': ['fn', fn]})
+    # attaching through the public entry point deep.start(): what the application's own logging set-up produces with and without it
+    for setup in ATTACH_SETUPS:
+        for order in ('configure-then-attach', 'attach-then-configure'):
+            for lvl in ('default', 'INFO', 'DEBUG'):
+                out.append({'k': 'attach', 'setup': setup, 'order': order, 'level': lvl})
     if tier != 'quick':
         # every program of the statement grammar (de-duplicated by event signature) x every placement x every kind
         for name in progs.generated():
@@ -400,7 +405,132 @@ def compare(ctx, base, obs, label, case, feat):
     return True
 
 
+ATTACH_SETUPS = ['none', 'root-handler', 'basicConfig', 'named-logger', 'named-no-propagate', 'dictConfig']
+
+
+class ListHandler(__import__('logging').Handler):
+    def __init__(self, tag, sink):
+        super().__init__()
+        self.tag = tag
+        self.sink = sink
+
+    def emit(self, record):
+        self.sink.append((self.tag, record.name, record.levelname, record.getMessage()))
+
+
+def attach_run(desc, attach):
+    """A small application: sets its logging up (one of the usual ways), logs on three loggers at four levels, prints. With `attach`
+    the agent is started through deep.start() (grpc faked) before or after the set-up and shut down at the end. Returns what the
+    application's own handlers and its stdout received, and the state of the loggers it owns."""
+    import contextlib
+    import io
+    import logging
+    import logging.config
+    import deep
+    import deep.grpc.grpc_service as GS
+    import deep.api.plugin as PL
+    root = logging.getLogger()
+    names = ('', 'app', 'app.db', 'lib')
+    saved = {n: (logging.getLogger(n).level, list(logging.getLogger(n).handlers), logging.getLogger(n).propagate, logging.getLogger(n).disabled) for n in names + ('deep',)}
+    saved_trace = (sys.gettrace(), threading.gettrace())
+    grpc_saved, plugins_saved = GS.grpc, PL.DEEP_PLUGINS
+    GS.grpc = rig.FakeGrpcModule(rig.FakeChannel())
+    PL.DEEP_PLUGINS = []
+    rig.reset_agent_globals()
+    sink = []
+    stdout = io.StringIO()
+    agent = None
+    for n in names:
+        lg = logging.getLogger(n)
+        lg.handlers[:] = []
+        lg.setLevel(logging.WARNING if n == '' else logging.NOTSET)
+        lg.propagate = True
+        lg.disabled = False
+
+    def configure():
+        lvl = None if desc['level'] == 'default' else getattr(logging, desc['level'])
+        setup = desc['setup']
+        if setup == 'root-handler':
+            root.addHandler(ListHandler('root', sink))
+            if lvl is not None:
+                root.setLevel(lvl)
+        elif setup == 'basicConfig':
+            logging.basicConfig(handlers=[ListHandler('basic', sink)], **({'level': lvl} if lvl is not None else {}))
+        elif setup in ('named-logger', 'named-no-propagate'):
+            lg = logging.getLogger('app')
+            lg.addHandler(ListHandler('app', sink))
+            lg.propagate = setup == 'named-logger'
+            if lvl is not None:
+                lg.setLevel(lvl)
+        elif setup == 'dictConfig':
+            logging.config.dictConfig({'version': 1, 'disable_existing_loggers': False,
+                                       'handlers': {'h': {'()': lambda: ListHandler('dict', sink)}},
+                                       'root': {'handlers': ['h'], 'level': desc['level'] if lvl is not None else 'WARNING'}})
+
+    def start_agent():
+        return deep.start({'SERVICE_URL': 'fake:1', 'POLL_TIMER': 3600, 'APP_ROOT': '/nonexistent-app-root'})
+    try:
+        with contextlib.redirect_stdout(stdout):
+            if desc['order'] == 'configure-then-attach':
+                configure()
+                if attach:
+                    agent = start_agent()
+            else:
+                if attach:
+                    agent = start_agent()
+                configure()
+            for n in ('app', 'app.db', 'lib'):
+                lg = logging.getLogger(n)
+                lg.debug('%s debug', n)
+                lg.info('%s info', n)
+                lg.warning('%s warning', n)
+                lg.error('%s error', n)
+            print('application output')
+            if agent is not None:
+                agent.shutdown()
+                agent = None
+            logging.getLogger('app').warning('after shutdown')
+        state = {n or 'root': (logging.getLogger(n).level, [type(h).__name__ for h in logging.getLogger(n).handlers], logging.getLogger(n).propagate,
+                               logging.getLogger(n).disabled, logging.getLogger(n).getEffectiveLevel()) for n in names}
+        out_lines = [ln for ln in stdout.getvalue().splitlines() if ' - deep' not in ln]      # the agent's own log lines are not the application's output
+        return {'records': list(sink), 'stdout': out_lines, 'loggers': state}
+    finally:
+        try:
+            if agent is not None:
+                agent.shutdown()
+        except BaseException:
+            pass
+        sys.settrace(saved_trace[0])
+        threading.settrace(saved_trace[1])
+        GS.grpc, PL.DEEP_PLUGINS = grpc_saved, plugins_saved
+        for n, (lv, hs, pr, dis) in saved.items():
+            lg = logging.getLogger(n)
+            lg.setLevel(lv)
+            lg.handlers[:] = hs
+            lg.propagate = pr
+            lg.disabled = dis
+
+
+def attach_case(ctx, desc):
+    base = attach_run(desc, False)
+    obs = attach_run(desc, True)
+    ctx.case()
+    ctx.nt(('attach', desc['setup'], desc['order'], desc['level']))
+    ctx.outcome(('attach', len(base['records']), len(base['stdout'])))
+    label = f"application logging set-up {desc['setup']} (level {desc['level']}), {desc['order']}"
+    for k, what in (('records', 'log records reaching the application\'s handlers'), ('stdout', 'standard output'), ('loggers', 'state of the application\'s loggers')):
+        if base[k] != obs[k]:
+            if k == 'loggers':
+                diff = {n: (base[k][n], obs[k][n]) for n in base[k] if base[k][n] != obs[k][n]}
+            else:
+                diff = {'only-without-agent': [r for r in base[k] if r not in obs[k]][:3], 'only-with-agent': [r for r in obs[k] if r not in base[k]][:3]}
+            ctx.violation(f'C01/attach/{k}-differ/{desc["setup"]}', f'{label}: {what} differ once deep.start() was called: {diff}', desc)
+            return
+
+
 def run_case(ctx, desc):
+    if desc['k'] == 'attach':
+        return attach_case(ctx, desc)
     name, loc = desc['prog'], tuple(desc['loc'])
     if name.startswith('g') and name[1:].isdigit():
         progs.generated()
